@@ -10,7 +10,6 @@
     The [k_*] predicates are the finding classes. *)
 From Coq Require Import String ZArith List Bool.
 From GV Require Export Conc.Ops.
-From GV Require Import Conc.ProofsLock Conc.ProofsRdf Conc.ProofsBuf.
 Import ListNotations.
 Open Scope Z_scope.
 
